@@ -1,5 +1,5 @@
 (* C06/ProofsGlue.v — derivative-losing glue, and the Jacobian / Hessian helpers. *)
-From Coq Require Import Reals List Lia Lra Bool ZArith.
+From Coq Require Import Reals List Lia Lra Bool ZArith Floats.
 From Coquelicot Require Import Coquelicot.
 From ADV Require Import Base.Num C06.Model C06.Spec C06.ParamT C06.ProofsAlg C06.ProofsAna C06.ProofsLift.
 Import ListNotations.
@@ -38,3 +38,10 @@ Proof.
   - destruct (jet_lift_expr k 2 x _ Hs) as (_ & _ & H2). apply H2; [lia|exact Hi|exact Hj].
   - rewrite !(gh_evalJ k 2 x e Hs) by (try lia; assumption). apply Dx_comm. exact Hs.
 Qed.
+
+(* known finding F-GJ-SINGULAR-PANIC: on a singular system the DenseFloat64 path of Gauss-Jordan returns an
+   error, the generic path panics (binary64 run of the C04 model: 0/0 = NaN is how singularity is detected) *)
+Lemma gj_singular_refuted :
+  M4.gj_run NumF true false 1 [true] (M4.mkSt [[0%float]] [[1%float]] [1%float]) = M4.ErrSingular /\
+  M4.gj_run NumF false false 1 [true] (M4.mkSt [[0%float]] [[1%float]] [1%float]) = M4.PanicSingular.
+Proof. split; vm_compute; reflexivity. Qed.
